@@ -439,8 +439,10 @@ func runMatrix(cs *fw.Case, m matIn, real bool, withSqrt bool) {
 		switch {
 		case p != nil && p.Budget:
 			if !m.Finite {
-				// the statement bounds the running time "for every finite input"
+				// the termination clause names finite inputs; the second sentence of the statement and
+				// its quantifier include non-finite entries: the call must still come back
 				cs.Cover("observed:nonfinite-input:no-return:" + rt.Name)
+				report(rt.Name, rt.Opts, extremeClass(m), noReturn{p.Site, used})
 				continue
 			}
 			failed[rt.Name+"|"+rt.Opts] = noReturn{p.Site, used}
